@@ -638,10 +638,10 @@ Section QueryExec.
             - unfold L. cbn [List.length app]. rewrite !app_length. destruct ne; cbn [List.length]; lia. }
           rewrite Eb. cbn [litv_ok] in Hl. apply andb_true_iff in Hl. destruct Hl as [Hq Hbody].
           eexists _, _. intros toks1.
-          assert (E4 : forall b1 st, exec_action (if q =? 39 then 43%nat else 44%nat) body b1 st = AOk (push (IStr (text_of body)) st)).
-          { intros b1 st. destruct (q =? 39); cbn [Actions.exec_action]; rewrite (unescape_plain q body Hbody); reflexivity. }
+          assert (E4 : forall b1 st, exec_action (if q =? 39 then 43%nat else 44%nat) body b1 st = AOk (push (IStr (text_of (unescape_cps body))) st)).
+          { intros b1 st. destruct (q =? 39); cbn [Actions.exec_action]; reflexivity. }
           rewrite E4. cbn [abind].
-          change (push (IStr (text_of body)) (mk (ps ++ [ICParam (cmp_left cfg i)]))) with (mk ((ps ++ [ICParam (cmp_left cfg i)]) ++ [IStr (text_of body)])).
+          change (push (IStr (text_of (unescape_cps body))) (mk (ps ++ [ICParam (cmp_left cfg i)]))) with (mk ((ps ++ [ICParam (cmp_left cfg i)]) ++ [IStr (text_of (unescape_cps body))])).
           cbn [Actions.exec_action]. rewrite pop_mk. cbn [abind literal_of]. reflexivity.
         - eexists _, _. intros toks1. destruct b0; cbn [litv_tokens app Actions.execute Actions.exec_action abind];
             (match goal with |- context [push ?x (mk ?l0)] => change (push x (mk l0)) with (mk (l0 ++ [x])) end); rewrite pop_mk; reflexivity.
